@@ -114,10 +114,13 @@ def check(seed, tier):
     rep = Report("C06", seed, tier)
     core.build_harness()
     thorough = tier == "thorough"
-    meta = core.gen("C06", seed, tier, shards=8 if thorough else 4)
-    # second batch: strings over the one-letter alphabet {a}; validated with length bound 16 (T_C06_unary.cfg), so
-    # repetition bounds beyond the widening threshold (8) are visible in the bounded language
-    umeta = core.gen("C06", seed, tier, shards=2 if thorough else 1, sub="unary")
+    # two batches, generated side by side.  The second one has strings over the one-letter alphabet {a} only; it is
+    # validated with length bound 16 (T_C06_unary.cfg), so repetition bounds beyond the widening threshold (8) are
+    # visible in the bounded language
+    with cf.ThreadPoolExecutor(max_workers=2) as ex:
+        f1 = ex.submit(core.gen, "C06", seed, tier, 8 if thorough else 4)
+        f2 = ex.submit(core.gen, "C06", seed, tier, 2 if thorough else 1, "unary")
+        meta, umeta = f1.result(), f2.result()
 
     def model_check():
         sfx = "_thorough" if thorough else ""
